@@ -34,7 +34,7 @@ def gen_module(rnd, name):
     pre = rnd.sample(fill, rnd.randint(0, 3))
     kind = rnd.choice(['none', 'decl', 'decl', 'decl', 'decl', 'alias', 'nested', 'two'])
     behaviour = rnd.choice(['clean', 'clean', 'print', 'raise', 'socket'])
-    cs = [rnd.choice(CONTRACTS if rnd.random() < .35 else CONTRACTS[:6]) for _ in range(rnd.randint(1, 3))]
+    cs = [rnd.choice(CONTRACTS if rnd.random() < .35 else CONTRACTS[:6]) for _ in range(rnd.choice([0, 1, 1, 1, 2, 2, 3]))]      # 0: `deal.module_load()`, an empty declaration
     lines, body_coq = ['import deal'], ['TOther']
     for p in pre: lines.append(p); body_coq.append('TOther')
     calls, arg_error = None, None
@@ -132,6 +132,10 @@ def monitor(acts, metas, obs):
                 if res != want: out.append((f'{m["kind"]} declaration of deal.pure: the import should be checked ({want}); got {res}', tag)); break
                 continue
             cs = m['contracts']
+            if not cs:
+                # an empty declaration declares nothing: rejected loudly ("no contracts specified"), never imported unchecked
+                if res != 'RuntimeError': out.append((f'empty declaration deal.module_load() must be rejected with RuntimeError; import gave {res}', None)); break
+                continue
             if any(c.startswith('unsupported') or c == 'crash' for c in cs):
                 if res == 'ok' or res == plain and plain != 'ok':
                     out.append((f'unsupported declaration {cs} must be rejected loudly; import gave {res}', None)); break
